@@ -33,10 +33,10 @@ func runC11(c *Ctx) {
 		return
 	}
 	defer crWorkerCheckpoint(c)()
-	c.Res.Rule = "(1) crash images as in C04 on transaction-heavy workloads (40% explicit transactions with bodies of 1-40 operations written in 1-3 Transaction.Write calls and spanning several internal table flushes, a third discarded; 10% batches larger than the write buffer, which DB.Write routes through a transaction): in every image taken after Commit returned nil the transaction is entirely present; a discarded one or one whose Commit had not been called is entirely absent; with Commit in flight entirely present or absent (head and tail marker agree, contents equal the present batches applied in order); a concurrent Put issued while the transaction is open has not returned before Commit/Discard and returns afterwards (watchdog); nested images during recovery. (2) residue: the table files a transaction spilled are gone from storage (stor.Files vs VerifDump live set) after Discard + settle, and after Close with the transaction still open + reopen. (3) failed commits: manifest write/sync failures (1-4 consecutive, with/without effect) injected into Commit; on error Discard; more writes; Close; reopen a copy: opens, every acknowledged write present, the transaction whole or absent. (4) an iterator obtained from a transaction and kept across Discard still shows what it showed (D16). (5) after Discard the file number of a spilled table is reused: reads must not come from cached blocks of the discarded table. One evaluation = one reopened image (1) or one scenario (2-5); non-trivial = a transaction spilled at least one table / at least one batch issued."
+	c.Res.Rule = "(1) crash images as in C04 on transaction-heavy workloads (40% explicit transactions with bodies of 1-40 operations written in 1-3 Transaction.Write calls and spanning several internal table flushes, a third discarded; 10% batches larger than the write buffer, which DB.Write routes through a transaction): in every image taken after Commit returned nil the transaction is entirely present; a discarded one or one whose Commit had not been called is entirely absent; with Commit in flight entirely present or absent (head and tail marker agree, contents equal the present batches applied in order); a concurrent Put issued while the transaction is open has not returned before Commit/Discard and returns afterwards (watchdog); nested images during recovery. (2) residue: the table files a transaction spilled are gone from storage (stor.Files vs VerifDump live set) after Discard + settle, and after Close with the transaction still open + reopen. (3) failed commits: manifest write/sync failures (1-4 consecutive, with/without effect) injected into Commit; on error Discard; more writes; Close; reopen a copy: opens, every acknowledged write present, the transaction whole or absent. (4) an iterator obtained from a transaction and kept across Discard still shows what it showed (D16). (5) after Discard the file number of a spilled table is reused: reads must not come from cached blocks of the discarded table. (6) Commit waits for a table compaction after installing the transaction (level-0 count at WriteL0PauseTrigger 2-4) and that compaction fails or the DB is closed meanwhile: what Commit reports matches what is visible (nil = all, error + Discard = none or, after reopen, all), reads keep working, the files reopen. One evaluation = one reopened image (1) or one scenario (2-6); non-trivial = a transaction spilled at least one table / at least one batch issued."
 	once := &crSigOnce{}
 	// ---- (2)-(5): scenarios, a small share of the budget -----------------------------------------
-	nsc := c.Scale(480, 12000)
+	nsc := c.Scale(600, 15000)
 	par := runtime.GOMAXPROCS(0)
 	if par > 16 {
 		par = 16
@@ -55,7 +55,7 @@ func runC11(c *Ctx) {
 			defer wg.Done()
 			defer func() { <-sem }()
 			c.Guard("tx-scenario:harness", i, func() {
-				switch i % 4 {
+				switch i % 5 {
 				case 0:
 					c11Residue(c, once, r, i)
 				case 1:
@@ -64,6 +64,8 @@ func runC11(c *Ctx) {
 					c11IterAfterDiscard(c, once, r, i)
 				case 3:
 					c11StaleCache(c, once, r, i)
+				case 4:
+					c11CommitWaits(c, once, r, i)
 				}
 			})
 		}(i, r)
